@@ -20,6 +20,73 @@ ENUMS = [
     "BIDIB_TRAIN_ORIENTATION_LEFT", "BIDIB_TRAIN_ORIENTATION_RIGHT",
 ]
 
+# ---- single-hold facts (C08, concurrent readers): the occupancy setters and the position getter take
+# {bidib_trains_rwlock, trackstate_segments_mutex, trackstate_trains_mutex} once, as top-level statements of the
+# function body, release them once as top-level statements, and contain no return/goto in between; for the
+# setters the call of bidib_state_update_train_available lies (syntactically) inside that region. Hence on every
+# path the change of a segment's address list and the update of the derived train data happen within one
+# continuous hold of the segment and train mutexes, and the getters read inside one hold.
+import json
+HOLD = {
+    "bidib_state_bm_occ": ("src/state/bidib_state_setter.c", ["bidib_trains_rwlock", "trackstate_segments_mutex", "trackstate_trains_mutex"], True),
+    "bidib_state_bm_multiple": ("src/state/bidib_state_setter.c", ["bidib_trains_rwlock", "trackstate_segments_mutex", "trackstate_trains_mutex"], True),
+    "bidib_state_bm_address": ("src/state/bidib_state_setter.c", ["bidib_trains_rwlock", "trackstate_segments_mutex", "trackstate_trains_mutex"], True),
+    "bidib_get_train_position": ("src/highlevel/bidib_highlevel_getter.c", ["bidib_trains_rwlock", "trackstate_segments_mutex", "trackstate_trains_mutex"], False),
+    "bidib_get_train_state": ("src/highlevel/bidib_highlevel_getter.c", ["trackstate_trains_mutex"], False),
+    "bidib_get_train_on_track": ("src/highlevel/bidib_highlevel_getter.c", ["trackstate_trains_mutex"], False),
+    "bidib_get_segment_state": ("src/highlevel/bidib_highlevel_getter.c", ["trackstate_segments_mutex"], False),
+}
+def _ast_functions(repo, rel, name, flags):
+    r = subprocess.run(["clang", "-std=gnu11", "-w"] + flags + ["-fsyntax-only", "-Xclang", "-ast-dump=json", "-Xclang", "-ast-dump-filter=" + name,
+                        os.path.join(repo, rel)], capture_output=True, text=True)
+    if r.returncode != 0: raise TranslatorError("clang AST dump failed for %s: %s" % (rel, r.stderr[:500]))
+    dec = json.JSONDecoder(); txt = r.stdout; i = 0; out = []
+    while i < len(txt):
+        while i < len(txt) and txt[i].isspace(): i += 1
+        if i >= len(txt): break
+        o, i = dec.raw_decode(txt, i); out.append(o)
+    return [o for o in out if o.get("kind") == "FunctionDecl" and o.get("name") == name and any(c.get("kind") == "CompoundStmt" for c in o.get("inner", []))]
+def _callee(n):
+    if n.get("kind") != "CallExpr" or not n.get("inner"): return None
+    x = n["inner"][0]
+    while x.get("kind") in ("ImplicitCastExpr", "ParenExpr") and x.get("inner"): x = x["inner"][0]
+    return (x.get("referencedDecl") or {}).get("name")
+def _lockarg(n):
+    if len(n.get("inner", [])) < 2: return None
+    x = n["inner"][1]
+    while x.get("kind") in ("ImplicitCastExpr", "ParenExpr", "UnaryOperator") and x.get("inner"): x = x["inner"][0]
+    return (x.get("referencedDecl") or {}).get("name")
+def _walk(n):
+    yield n
+    for c in n.get("inner", []) or []:
+        if isinstance(c, dict): yield from _walk(c)
+ACQ = ("pthread_mutex_lock", "pthread_rwlock_rdlock", "pthread_rwlock_wrlock"); REL = ("pthread_mutex_unlock", "pthread_rwlock_unlock")
+def single_hold(repo, flags):
+    facts = []
+    for name, (rel, locks, need_update) in HOLD.items():
+        fs = _ast_functions(repo, rel, name, flags)
+        if len(fs) != 1: raise TranslatorError("function %s not found exactly once in %s" % (name, rel))
+        body = [c for c in fs[0]["inner"] if c.get("kind") == "CompoundStmt"][0]
+        top = body.get("inner", [])
+        ops = []      # (index of the top-level statement, 'A'/'R', lock) for the locks of interest, anywhere in the body
+        for k, st in enumerate(top):
+            for n in _walk(st):
+                cal = _callee(n)
+                if cal in ACQ + REL and _lockarg(n) in locks:
+                    ops.append((k, "A" if cal in ACQ else "R", _lockarg(n), n is st))
+        want = [("A", l) for l in locks] + [("R", l) for l in reversed(locks)]
+        ok = [(o[1], o[2]) for o in ops] == want and all(o[3] for o in ops)
+        if ok:
+            first, last = ops[len(locks) - 1][0], ops[len(locks)][0]
+            inner = [n for st in top[first + 1:last] for n in _walk(st)]
+            if any(n.get("kind") in ("ReturnStmt", "GotoStmt") for n in inner): ok = False
+            # no return between the first acquisition and the last release either
+            span = [n for st in top[ops[0][0]:ops[-1][0] + 1] for n in _walk(st)]
+            if any(n.get("kind") in ("ReturnStmt", "GotoStmt") for n in span): ok = False
+            if need_update and not any(_callee(n) == "bidib_state_update_train_available" for n in inner): ok = False
+        facts.append((name, ok))
+    return facts
+
 def generate_files(repo):
     tmp = tempfile.mkdtemp(prefix="vstab")
     try:
@@ -58,6 +125,9 @@ def generate_files(repo):
             f = line.split()
             if f[0] == "SPEED":
                 L.append("(* bidib_dcc_speed_to_lib_format evaluated on every byte *)\nDefinition dcc_speed_table : list Z := [%s]." % "; ".join("(%s)%%Z" % x for x in f[1:]))
+        facts = single_hold(repo, flags)
+        L.append("(* single-hold facts read off the clang AST (see translator/gen_statetabs.py): " + ", ".join(n for n, _ in facts) + " *)")
+        L.append("Definition single_hold_facts : list bool := [%s]." % "; ".join("true" if ok else "false" for _, ok in facts))
         return {"StateTabs.v": "\n".join(L) + "\n"}
     finally:
         shutil.rmtree(tmp, ignore_errors=True)
